@@ -53,6 +53,9 @@ class Rule:
         return [i for i in self.instances if i["verdict"] in ("ok", "violation")]
 
 
+THOROUGH_CFGS = ["optel"]
+
+
 class Blind(Exception):
     """rule matched fewer instances than its floor: fail closed"""
 
@@ -71,8 +74,10 @@ class Ctx:
         self.analysed_functions = set()
         self.extra = {}
         self.fact_info = {}
+        self.cfg = os.environ.get("FLAN_CFG", "default")
 
-    def program(self, cfg="default", crate="flute"):
+    def program(self, cfg=None, crate="flute"):
+        cfg = cfg or self.cfg
         key = (cfg, crate)
         if key not in self.progs:
             paths, th, cached = facts.build_facts(self.repo, cfg)
@@ -125,8 +130,25 @@ def run_property(prop, tier="quick", repo="/repo", seed=0, replay=None, evidence
     try:
         mod = importlib.import_module("flan.props.%s" % prop.lower())
         mod.run(ctx)
+        if tier == "thorough" and "FLAN_CFG" not in os.environ:
+            # thorough: the same rules over the other feature configurations of the crate that change library code
+            # (cfg(feature = "opentelemetry") adds calls inside the sender/receiver state machines)
+            for cfg in THOROUGH_CFGS:
+                c2 = Ctx(prop, tier, repo, seed)
+                c2.cfg = cfg
+                mod.run(c2)
+                for r in c2.rules:
+                    r.id = "%s@%s" % (r.id, cfg)
+                    r.cfg = cfg
+                    ctx.rules.append(r)
+                ctx.fact_info.update(c2.fact_info)
+                ctx.analysed_functions |= c2.analysed_functions
+                for a_ in c2.assumptions:
+                    ctx.assume(a_)
         for r in ctx.rules:
-            if len(r.examined()) < r.floor_n:
+            # a rule that already reports a violation explains its own shortfall (the violated instance replaced the
+            # scenarios that would have been counted): the verdict is the violation, not "blind"
+            if len(r.examined()) < r.floor_n and not any(i.get("verdict") == "violation" for i in r.examined()):
                 raise Blind("rule %s examined %d instances, floor is %d (%s): the rule no longer sees the code it was "
                             "written for" % (r.id, len(r.examined()), r.floor_n, r.floor_what))
     except (model.AnchorMissing, Blind, facts.FactsError) as e:
@@ -143,11 +165,15 @@ def run_property(prop, tier="quick", repo="/repo", seed=0, replay=None, evidence
     nviol = 0
     replay_dir = os.path.join(evidence_dir, "replay")
     printed_known = set()
+    reported = set()
     for r in ctx.rules:
         for i in r.instances:
             if replay and i["key"] != replay:
                 continue
             if i["verdict"] == "violation":
+                if getattr(r, "cfg", None) and i["key"] in reported:
+                    i["verdict"] = "violation-dup"   # same instance already reported for the default configuration
+                    continue
                 if i["key"] in known:
                     i["verdict"] = "known"
                     i["known"] = known[i["key"]]
@@ -156,6 +182,7 @@ def run_property(prop, tier="quick", repo="/repo", seed=0, replay=None, evidence
                         out.write("KNOWN-FINDING: property=%s %s [%s at %s]\n" % (prop, known[i["key"]], i["key"], i["loc"]))
                     continue
                 nviol += 1
+                reported.add(i["key"])
                 os.makedirs(replay_dir, exist_ok=True)
                 rp = os.path.join(replay_dir, "%s-%d.json" % (prop, nviol))
                 with open(rp, "w") as fh:
